@@ -935,6 +935,14 @@ class CallsMixin:
         for exc, cond in c.raises.items():
             cv = self.truth(self.spec_eval(cond, env, st, mod, c), st)
             self.raise_side(st, exc, cv)
+        for exc, cond in c.raise_allowed.items():
+            cv = self.truth(self.spec_eval(cond, env, st, mod, c), st)
+            b = z3.Bool(V.fresh_name(f"may_{exc}"))
+            f = st.copy()
+            f.pc = f.full_pc(z3.And(b, cv))
+            f.guards = []
+            if not self.spec_mode and self.is_feasible(f):
+                self.side.append(Outcome("raise", f, exc=exc))
         for cond in c.must_raise:
             cv = self.truth(self.spec_eval(cond, env, st, mod, c), st)
             st.assume(z3.Not(cv))
